@@ -46,7 +46,7 @@ def core_objects(exclude=()):
     return objs
 
 
-def compile_run(name, cpp_text, args=(), exclude_objs=(), sanitize=True, timeout=120, need_core=True):
+def compile_run(name, cpp_text, args=(), exclude_objs=(), sanitize=False, timeout=120, need_core=True):
     """Compile cpp_text (which may #include real /repo/lib/*.cpp files; list their
     object names in exclude_objs to avoid duplicate symbols) and run it.
     Returns (returncode, output, command-line-to-rerun)."""
